@@ -171,7 +171,10 @@ def run_mc_programs(ctx, prog, rng):
     jobs = []
     for kind in MC_KINDS:
         for rep in range(reps):
-            p1, p2 = rng.range(1, 2), rng.range(1, 2)
+            # sizes: the point is one exercise of each simcall kind, not a large state space (20 s wall limit on a
+            # shared machine); only the comm kinds take 2 messages, and only in the thorough tier the others do
+            big = kind in ("comm_wait", "comm_test", "waitany", "testany") or (ctx.tier == "thorough" and rep == 2)
+            p1, p2 = (rng.range(1, 2) if big else 1), rng.range(1, 2)
             red = rng.choice(["dpor", "none"]) if rep else "dpor"
             jobs.append((kind, p1, p2, red))
 
@@ -190,6 +193,14 @@ def run_mc_programs(ctx, prog, rng):
     with ThreadPoolExecutor(4) as ex:
         done = list(ex.map(one, jobs))
     for (kind, p1, p2, red), cmd, rc, err, dt in done:
+        if rc == "timeout" and kind != "mess":
+            # slow exploration on a loaded machine or a hang?  once more, alone, with three times the limit
+            try:
+                p = subprocess.run(cmd, capture_output=True, text=True, timeout=60, env=dict(os.environ, **ctx.sg_env()), cwd=ctx.work)
+                rc, err = p.returncode, (p.stdout + p.stderr)
+                ctx.notes.append("%s %d %d (%s) needed more than 20 s in the parallel batch; alone: rc=%s" % (kind, p1, p2, red, rc))
+            except subprocess.TimeoutExpired:
+                pass
         ctx.cov["evaluations"] += 1
         case = {"program": "props/C43/prog.cpp", "args": [kind, p1, p2], "reduction": red, "rc": rc, "wall_s": dt,
                 "cmd": " ".join(cmd), "output_tail": err[-600:]}
